@@ -26,7 +26,10 @@ def run(tier, seed):
              # the steps: looking must not change what the interpreter reports afterwards
              ([(2, 5, 1)], {'schemes': ('asc',), 'decls': ('observed',)}),
              # plus: a second interpreter of the same Statechart object is created and driven while the first is alive
-             ([(2, 4, 1)], {'schemes': ('asc',), 'decls': ('bystander',)})]
+             ([(2, 4, 1)], {'schemes': ('asc',), 'decls': ('bystander',)}),
+             # plus: nested orthogonal states with three transitions at once from pairwise orthogonal sources (a step
+             # that must be refused must not be half executed into an illegal configuration)
+             ([(7, 7, '3o')], {'require': 'nested-orth', 'schemes': ('asc',), 'history': False, 'final': False})]
     return schemes.run('C02', tier, seed, PLAN[tier], ['legal'], {'legal', 'stable', 'final'},
                        RULE, ASSUME, extra_plans=extra)
 
